@@ -14,7 +14,10 @@ func RunReplay(name string, f func()) {
 		defer func() {
 			if r := recover(); r != nil {
 				if _, ok := r.(AssumeFailed); ok {
-					outcome = "assume-failed"
+					// an assertion that failed before the path was abandoned is the outcome
+					if len(Failures) == 0 {
+						outcome = "assume-failed"
+					}
 					return
 				}
 				outcome = "panic"
